@@ -559,11 +559,19 @@ def getTagList {σ} (hook : ObjHook σ) (w : Cli.World σ) (l : LDrv) (allProgra
 
 /-! ## 6. `_initialize_driver` and `open` -/
 
-/-- logix_driver.py:182-189: a Micro800 does not use the trailing backplane/slot segment of the route -/
+/-- logix_driver.py `_is_backplane`: the port of a port segment is the backplane (number 1, or a name of the table that
+    stands for 1; names are looked up in lower case) -/
+def isBackplane : Seg → Bool
+  | .port (.int p) _ => p == 1
+  | .port (.name s) _ => lookupName (PyStr.toLower s) Gen.portSegments == some 1
+  | _ => false
+
+/-- logix_driver.py:182-189: a Micro800 does not use the trailing backplane/slot segment of the route; only a backplane
+    segment is taken off, so that the next `open()` of the same driver does not take another hop off the route -/
 def popPortSegment (path : List Seg) : List Seg :=
   match path.getLast? with
-  | some (.port _ _) => path.dropLast
-  | _ => path
+  | some seg => if isBackplane seg then path.dropLast else path
+  | none => path
 
 /-- logix_driver.py:168 `_initialize_driver(init_tags, init_program_tags)` -/
 def initializeDriver {σ} (hook : ObjHook σ) (cfg : Config) (w : Cli.World σ) (l : LDrv) : Cli.World σ × LDrv × Except Exn Unit :=
